@@ -19,7 +19,7 @@ LEVEL = 'exploration'
 RULE = ('full product: model {a exp(-b x), a cosh(b (x - 3)), a/(1+b x), a exp(-b x)+c, two-dimensional a x1 + b exp(-x2)} x data '
         'layout {every point on its own ensemble, all points on one ensemble} x chi-square {uncorrelated, correlated} x priors '
         '{none, Obs prior on the non-linear parameter} x gradient {autograd, num_grad}; total_least_squares for every model with '
-        'observable abscissae (own ensembles), fit_lin dispatch with observable x, negligible-x-error limit.  For every fit: '
+        'observable abscissae (own ensembles), every model x {uncorrelated, correlated} x priors x method {migrad, Nelder-Mead, Powell} against the Levenberg-Marquardt result (parameters, chi-square, fluctuations), fit_lin dispatch with observable x, negligible-x-error limit.  For every fit: '
         'stationarity of the re-implemented chi-square and a finite-difference re-fit sensitivity for EVERY data point (and every '
         'abscissa / prior) against the reported fluctuations.  Non-trivial = every fit')
 ASSUMPTIONS = ['sensitivities by re-fitting with y_i +- eps, eps = 0.1 sigma and 0.05 sigma (Richardson), accepted within 2e-3 of the '
@@ -117,6 +117,14 @@ def build(tier, seed):
                 continue      # num_grad total least squares is slow: two models in the quick tier, all in thorough
             cases.append({'kind': 'tls', 'model': model, 'num_grad': ng})
     cases.append({'kind': 'tls-limit'})
+    # the other minimisers must arrive at the same stationary point, chi-square and fluctuations as Levenberg-Marquardt
+    for model in models():
+        for corr in (False, True):
+            for prior in (False, True):
+                for method in ('migrad', 'Nelder-Mead', 'Powell'):
+                    if model == 'cosh' and not prior:
+                        continue       # a cosh(b (x - 3)) has the mirror minimum b -> -b; the prior on b removes the degeneracy
+                    cases.append({'kind': 'ls-method', 'model': model, 'layout': 'shared', 'corr': corr, 'prior': prior, 'method': method})
     return cases
 
 
@@ -129,6 +137,8 @@ def run_case(case):
             run_ls(pe, acc, case)
         elif case['kind'] == 'tls':
             run_tls(pe, acc, case)
+        elif case['kind'] == 'ls-method':
+            run_ls_method(pe, acc, case)
         else:
             run_tls_limit(pe, acc, case)
     return acc
@@ -249,6 +259,52 @@ def run_ls(pe, acc, case):
     acc.ok(repr(case), True, 'ls' + (':corr' if corr else '') + (':prior' if use_prior else '') + (':numgrad' if ng else ''))
     acc.count('refits', 4 * len(sources))
     acc.count('sensitivity-coefficients-compared', len(sources) * npar)
+    acc.sample(dict(case, points=n))
+
+
+def run_ls_method(pe, acc, case):
+    model, layout, corr, use_prior, method = case['model'], case['layout'], case['corr'], case['prior'], case['method']
+    f, ptrue, dim, guess = models()[model]
+    npar = len(ptrue)
+    n = 6 if npar == 2 else 7
+    x, ys = make_data(pe, model, n, layout, 'ls')
+    kw = {'initial_guess': guess}
+    if corr:
+        kw['correlated_fit'] = True
+    prior_arg = None
+    if use_prior:
+        prior_obs = pe.Obs([ptrue[1] * 1.05 + 0.1 * ptrue[1] * alpha.rng('c08prior', model).normal(size=25)], ['P|r1'])
+        prior_obs.gamma_method()
+        prior_arg = {1: prior_obs}
+    sig = 'ls-method:%s:%s%s%s' % (method, model, ':corr' if corr else '', ':prior' if use_prior else '')
+    try:
+        base = pe.least_squares(x, ys, f, priors=prior_arg, silent=True, **kw)
+        res = pe.least_squares(x, ys, f, priors=prior_arg, silent=True, method=method, **kw)
+    except Exception as e:
+        if 'did not converge' in str(e):
+            acc.ok(repr(case), False, 'ls-method:refused(no convergence)')      # the library's own refusal
+            return
+        acc.fail(sig + ':raised', dict(case), 'least_squares(method=%s) raised %s: %s' % (method, type(e).__name__, e))
+        return
+    [o.gamma_method() for o in base.fit_parameters]
+    for k in range(npar):
+        a, b = base.fit_parameters[k], res.fit_parameters[k]
+        if not abs(a.value - b.value) <= 2e-3 * a.dvalue:
+            acc.fail(sig + ':parameters', dict(case), 'parameter %d: %s gives %.10g, Levenberg-Marquardt %.10g (error %.3g)' % (k, method, b.value, a.value, a.dvalue))
+            return
+        if sorted(a.names) != sorted(b.names):
+            acc.fail(sig + ':chains', dict(case), 'parameter %d lives on %s, with Levenberg-Marquardt on %s' % (k, b.names, a.names))
+            return
+        for nm in a.deltas:
+            sc = np.max(np.abs(a.deltas[nm])) + 1e-300
+            if not np.max(np.abs(a.deltas[nm] - b.deltas[nm])) <= 5e-3 * sc:
+                acc.fail(sig + ':fluctuations', dict(case), 'parameter %d, chain %s: fluctuations differ from the Levenberg-Marquardt result by %g (scale %g)' % (
+                    k, nm, np.max(np.abs(a.deltas[nm] - b.deltas[nm])), sc))
+                return
+    if not abs(res.chisquare - base.chisquare) <= 1e-5 * max(1.0, base.chisquare):
+        acc.fail(sig + ':chisquare', dict(case), 'chisquare %r vs %r' % (res.chisquare, base.chisquare))
+        return
+    acc.ok(repr(case), True, 'ls-method:' + method)
     acc.sample(dict(case, points=n))
 
 
